@@ -102,7 +102,7 @@ inductive Frame where
   | peerDrain (obj : Nat)
   | other
   | finish
-  | handler (op : Nat)
+  | handler (op : Nat) (counts : Bool)   -- counts: an I/O completion callback that is not a cancellation (C14)
   deriving Repr, DecidableEq, Inhabited
 
 structure S where
@@ -130,20 +130,19 @@ def findOp (s : S) (id : Nat) : Option Op := s.ops.find? (·.id == id)
 def setOp (s : S) (o : Op) : S := { s with ops := o :: s.ops.filter (·.id != o.id) }
 def mapOps (s : S) (f : Op → Op) : S := { s with ops := s.ops.map f }
 
-def depth (s : S) : Nat := (s.stack.filter fun f => match f with | .handler _ => true | _ => false).length
+def depth (s : S) : Nat := (s.stack.filter fun f => match f with | .handler _ _ => true | _ => false).length
 
 def OpKind.isIO (k : OpKind) : Bool := k.isRead || k.isWrite
 
-/-- C14 counts completion callbacks of I/O operations (timer and posted handlers are not completions). -/
+/-- C14 counts nested completion callbacks of I/O operations (timer and posted handlers are not completions;
+callbacks delivered by `Cancel` are not immediately completed operations and are outside C14's quantifier). -/
 def ioDepth (s : S) : Nat :=
-  (s.stack.filter fun f => match f with
-    | .handler h => (match s.ops.find? (·.id == h) with | some o => o.kind.isIO | none => false)
-    | _ => false).length
+  (s.stack.filter fun f => match f with | .handler _ c => c | _ => false).length
 
 /-- Innermost *call* frame (handlers skipped): tells in which API call we currently are. -/
 def innerCall : List Frame → Option Frame
   | [] => none
-  | .handler _ :: r => innerCall r
+  | .handler _ _ :: r => innerCall r
   | f :: _ => some f
 
 /-- Is there an enclosing Cancel call on the operation's object?  (An operation started by a handler that runs
@@ -163,7 +162,7 @@ def armedTimer (s : S) (obj : Nat) : Option Op :=
 /-- bump the `dispatched` counter of the innermost poll frame when a handler is entered directly under it -/
 def bumpPoll : List Frame → List Frame
   | [] => []
-  | .handler h :: r => .handler h :: r        -- nested under another handler: not a poller dispatch
+  | .handler h c :: r => .handler h c :: r    -- nested under another handler: not a poller dispatch
   | .poll k :: r => .poll (k + 1) :: r
   | f :: r => f :: r
 
@@ -199,7 +198,7 @@ def enterChecks (s : S) (o : Op) (res : Res) (n : Int) (data : List UInt8) (earl
     (res == .cancelled && !inCancel s.stack o.obj, "cancelled-result-without-cancel"),
     (inCancel s.stack o.obj && o.state == .inflight && innerCallIsCancel s.stack o.obj && res == .ok, "cancel-completed-with-success"),
     -- C14: nesting depth; a deferred operation completes with the result it would have had inline
-    (o.kind.isIO && ioDepth s + 1 > maxDispatch + 1, "nesting-deeper-than-limit"),
+    (o.kind.isIO && res != .cancelled && ioDepth s + 1 > maxDispatch + 1, "nesting-deeper-than-limit"),
     (o.state == .starting && s.regular.contains o.obj && res == .err && s.forcedDisp ≥ (maxDispatch : Int),
       "regular-file-not-deferrable"),
     -- C04 / C05
@@ -216,7 +215,7 @@ def enterChecks (s : S) (o : Op) (res : Res) (n : Int) (data : List UInt8) (earl
     (o.kind == .writeAll && res == .ok && n.toNat != o.len, "writeall-success-partial"),
     ((o.kind == .write || o.kind == .writeAll) && n.toNat < o.seen, "write-count-below-bytes-on-wire") ]
 
-def enterNext (s : S) (o : Op) (n : Int) : S :=
+def enterNext (s : S) (o : Op) (res : Res) (n : Int) : S :=
   let off := lookup s.rxOff o.obj 0
   let s := if o.kind == .read || o.kind == .readAll then { s with rxOff := update s.rxOff o.obj (off + n.toNat) } else s
   let s := if o.kind == .write || o.kind == .writeAll then
@@ -224,7 +223,7 @@ def enterNext (s : S) (o : Op) (n : Int) : S :=
   let st' : OpState := if o.kind == .timerRep then o.state else .done
   let s := setOp s { o with state := st' }
   let s := if o.kind == .post then { s with posts := s.posts.drop 1 } else s
-  { s with stack := .handler o.id :: bumpPoll s.stack }
+  { s with stack := .handler o.id (o.kind.isIO && res != .cancelled) :: bumpPoll s.stack }
 
 /-- What is checked when a call returns (frame `f` popped, `s` already without it). -/
 def retStep (s : S) (f : Frame) (r : Ret) : M S :=
@@ -260,7 +259,7 @@ def retStep (s : S) (f : Frame) (r : Ret) : M S :=
     -- (inside the timer's own callback the schedule is in transition: a repeating timer is re-armed only after the
     -- callback returns; the property is not read as fixing the flag there)
     let inOwnHandler := s.stack.any fun f => match f with
-      | .handler h => (match findOp s h with | some o => o.obj == obj && o.kind.isTimer | none => false)
+      | .handler h _ => (match findOp s h with | some o => o.obj == obj && o.kind.isTimer | none => false)
       | _ => false
     guarded [(!inOwnHandler && b != ((s.ops.find? fun o => o.obj == obj && o.kind.isTimer && o.state == .inflight).isSome),
               "scheduled-flag-wrong")] s
@@ -328,10 +327,10 @@ def step (s : S) : Ev → M S
   | .enter op res n data early =>
       match findOp s op with
       | none => .error "callback-of-unknown-op"
-      | some o => guarded (enterChecks s o res n data early) (enterNext s o n)
+      | some o => guarded (enterChecks s o res n data early) (enterNext s o res n)
   | .exit op =>
       match s.stack with
-      | .handler h :: r => if h == op then .ok { s with stack := r } else .error "handler-nesting-broken"
+      | .handler h _ :: r => if h == op then .ok { s with stack := r } else .error "handler-nesting-broken"
       | _ => .error "handler-nesting-broken"
   | .ret r =>
       match s.stack with
